@@ -291,10 +291,7 @@ pub fn run(c: &Case) -> Outcome {
                 out.fail("input-gate:refused-but-wrote-bytes", format!("after step #{}: refused input put {} bytes on the wire", i, after - before));
                 return out;
             }
-            if !r2.is_ok() {
-                out.fail("input-gate:try_write-error", format!("after step #{}: try_write returned an error outside the input window", i));
-                return out;
-            }
+            // the lenient write may drop the event silently or refuse it with an error: both are "refused" (no bytes were written)
             states.retain(|s| *s != St::Active);
             if completed_activation {
                 refused_after_activation = true;
